@@ -193,7 +193,13 @@ func tsCmsg(t time.Time) []byte {
 	return b
 }
 
-func hostNum(raw []byte) int64 {
+// hostNum: the host of a SCION address header as an unmapped IPv4 address; -1: the
+// header does not say IPv4 / IPv6 host (service address, unassigned type) or the
+// bytes are no IP address or not an IPv4(-mapped) one.
+func hostNum(raw []byte, typ slayers.AddrType) int64 {
+	if typ != slayers.T4Ip && typ != slayers.T16Ip {
+		return -1
+	}
 	a, ok := netip.AddrFromSlice(raw)
 	if !ok {
 		return -1
@@ -274,7 +280,7 @@ func scionView(buf []byte) (view string, payload []byte, vi viewInfo) {
 		}
 	}
 	return lib.L("1", lib.I(int64(len(decoded))), lib.I(last), lib.Bool(lenOK), lib.U(uint64(scn.SrcIA)), lib.U(uint64(scn.DstIA)),
-		lib.I(hostNum(scn.RawSrcAddr)), lib.I(hostNum(scn.RawDstAddr)), lib.Bool(vi.e2e), lib.I(vi.ts), lib.I(int64(vi.auth))), payload, vi
+		lib.I(hostNum(scn.RawSrcAddr, scn.SrcAddrType)), lib.I(hostNum(scn.RawDstAddr, scn.DstAddrType)), lib.Bool(vi.e2e), lib.I(vi.ts), lib.I(int64(vi.auth))), payload, vi
 }
 
 func (w *worker) startSCION() {
@@ -531,6 +537,72 @@ func hostForm(form int, a, other netip.Addr, p2 int64) (raw []byte, typ slayers.
 	}
 }
 
+// typeForm: the bytes of the IPv4 host a (or its IPv4-mapped form) under every address
+// type / length combination the SCION header can express (kind 37; p1 = form, +100: the
+// destination host instead of the source host; case kind scion.addrtype).  The address
+// type nibble is (type << 2 | length/4 - 1): T4Ip 0b0000, T4Svc 0b0100, T16Ip 0b0011.
+// same: the header names the IPv4 / IPv6 host a.
+const nTypeForms = 12
+
+func typeForm(form int, a netip.Addr, p2 int64) (raw []byte, typ slayers.AddrType, same bool) {
+	a4 := a.As4()
+	m16 := append([]byte{0, 0, 0, 0, 0, 0, 0, 0, 0, 0, 0xff, 0xff}, a4[:]...)
+	switch form {
+	case 0: // service address with the four bytes of a
+		return a4[:], slayers.T4Svc, false
+	case 1, 2: // unassigned 4-byte types
+		return a4[:], slayers.AddrType(form+1) << 2, false
+	case 3, 4, 5: // 16-byte address of a type other than IPv6, holding the IPv4-mapped form of a
+		return m16, slayers.AddrType(form-2)<<2 | 3, false
+	case 6: // a real service address (control service)
+		return []byte{0, 2, byte(p2 & 1), 0}, slayers.T4Svc, false
+	case 7: // control: the IPv4 host
+		return a4[:], slayers.T4Ip, true
+	case 8: // control: its IPv4-mapped form
+		return m16, slayers.T16Ip, true
+	case 9: // 8-byte address: the four bytes of a, four zero bytes
+		return append(append([]byte(nil), a4[:]...), 0, 0, 0, 0), slayers.AddrType(p2%4)<<2 | 1, false
+	case 10: // 12-byte address ending in the four bytes of a
+		return append(make([]byte, 8), a4[:]...), slayers.AddrType(p2%4)<<2 | 2, false
+	default: // 16-byte service-typed address ending in the four bytes of a, not mapped
+		b := make([]byte, 16)
+		b[0] = 0x20
+		copy(b[12:], a4[:])
+		return b, slayers.T4Svc | 3, false
+	}
+}
+
+// genHistAddrType: histories around the address type of the source / destination host
+// (case kind scion.addrtype): every datagram is a genuine response as far as NTP goes.
+func genHistAddrType(r *lib.Rng) histSpec {
+	h := histSpec{imode: r.Intn(3) == 0, deadline: r.Intn(5) != 0, addrtype: true}
+	form := func() recipe {
+		return recipe{kind: 37, p1: int64(r.Intn(nTypeForms) + 100*lib.Pick(r, 0, 0, 1)), p2: int64(r.Intn(1 << 16))}
+	}
+	for k := 0; k < 1+r.Intn(2); k++ {
+		op := opSpec{kind: 0}
+		n := 1
+		if h.imode {
+			n = 3
+		}
+		for j := 0; j < n; j++ {
+			var s []recipe
+			switch r.Intn(4) {
+			case 0, 1:
+				s = []recipe{form()}
+			case 2:
+				s = []recipe{form(), genuineInner(r)}
+			default:
+				s = []recipe{{kind: 5, p1: int64(r.Intn(4))}, form()}
+			}
+			op.scripts = append(op.scripts, s)
+			op.timeouts = append(op.timeouts, false)
+		}
+		h.ops = append(h.ops, op)
+	}
+	return h
+}
+
 func wrapped(v int, inner recipe) recipe {
 	return recipe{kind: 40 + v, p1: int64(inner.kind) + 100*inner.p1, p2: inner.p2}
 }
@@ -559,6 +631,22 @@ func (w *worker) scionDatagram(rc recipe, rq *reqRec, idx int, good scionHdr) (d
 		}
 		raw, typ, same := hostForm(int(rc.p1%10), host, w.addrB, rc.p2)
 		if rc.p1 >= 10 {
+			h.dstRaw, h.dstType = raw, typ
+		} else {
+			h.srcRaw, h.srcType = raw, typ
+		}
+		fs = same
+		inner = recipe{kind: 0, p2: rc.p2}
+		if rc.p2%4 == 3 {
+			inner.kind = 1
+		}
+	case rc.kind == 37:
+		host := h.srcHost
+		if rc.p1 >= 100 {
+			host = h.dstHost
+		}
+		raw, typ, same := typeForm(int(rc.p1%100), host, rc.p2)
+		if rc.p1 >= 100 {
 			h.dstRaw, h.dstType = raw, typ
 		} else {
 			h.srcRaw, h.srcType = raw, typ
@@ -844,6 +932,8 @@ func genAllFailAuth(r *lib.Rng) histSpec {
 
 func scionKind(h histSpec) string {
 	switch {
+	case h.addrtype:
+		return "scion.addrtype"
 	case h.auth && h.nts:
 		return "scion.ntsauth"
 	case h.auth:
